@@ -39,6 +39,12 @@ pub enum Kind {
     AttrPrefix,
     /// the `xmlns:p` declarations of this element are made on the root element instead
     HoistDecl,
+    /// a comment after the text of a token-valued leaf (`<session-id>802<!-- c --></session-id>`)
+    CommentInText,
+    /// the first character of a token-valued leaf's text written as a numeric character reference
+    CharRef,
+    /// the text of a token-valued leaf written as a CDATA section
+    CData,
 }
 
 #[derive(Debug, Clone, Copy, PartialEq, Eq, PartialOrd, Ord, Hash)]
@@ -47,7 +53,7 @@ pub struct Rw {
     pub pos: usize,
 }
 
-const TOKEN_ELEMENTS: [&str; 12] = ["capability", "session-id", "load-error-count", "error-type", "error-tag", "error-severity", "family", "choice-ident", "address", "choice-value", "bad-element", "error-app-tag"];
+const TOKEN_ELEMENTS: [&str; 13] = ["capability", "session-id", "load-error-count", "error-type", "error-tag", "error-severity", "family", "choice-ident", "address", "choice-value", "bad-element", "error-app-tag", "name"];
 
 fn index(node: &Node, next: &mut usize, out: &mut Vec<(usize, *const Node)>) {
     let me = *next;
@@ -82,6 +88,11 @@ pub fn applicable(root: &Node) -> Vec<Rw> {
         }
         if n.children.is_empty() && !n.text.is_empty() && TOKEN_ELEMENTS.contains(&n.name.as_str()) {
             out.push(Rw { kind: Kind::WsText, pos });
+            out.push(Rw { kind: Kind::CommentInText, pos });
+            out.push(Rw { kind: Kind::CharRef, pos });
+            if !n.text.contains("]]>") {
+                out.push(Rw { kind: Kind::CData, pos });
+            }
         }
         if n.attrs.len() >= 2 {
             out.push(Rw { kind: Kind::AttrOrder, pos });
@@ -186,10 +197,21 @@ impl Ser<'_> {
         }
         self.out.push('>');
         if n.children.is_empty() {
+            let mut text = esc(&n.text);
+            if self.has(Kind::CData, pos) {
+                text = format!("<![CDATA[{}]]>", n.text);
+            } else if self.has(Kind::CharRef, pos) {
+                if let Some(c) = n.text.chars().next() {
+                    text = format!("&#{};{}", c as u32, esc(&n.text[c.len_utf8()..]));
+                }
+            }
+            if self.has(Kind::CommentInText, pos) {
+                text.push_str("<!-- c13 -->");
+            }
             if self.has(Kind::WsText, pos) {
-                self.out.push_str(&format!("\n    {}\n  ", esc(&n.text)));
+                self.out.push_str(&format!("\n    {text}\n  "));
             } else {
-                self.out.push_str(&esc(&n.text));
+                self.out.push_str(&text);
             }
         } else {
             let ws = self.has(Kind::WsBetween, pos);
@@ -423,8 +445,14 @@ pub fn run(report: &mut Report) {
                 }
                 let what: Vec<String> = rws.iter().map(|r| format!("{:?}@{}", r.kind, element_at(&root, r.pos))).collect();
                 let family = seed.name.split(':').next().unwrap_or("");
+                // the three "markup inside a token-valued leaf" rewrites fail alike for every leaf (all of them
+                // are read as raw text spans): one finding class per message family and rewrite kind
+                let key = match rws.as_slice() {
+                    [r] if matches!(r.kind, Kind::CommentInText | Kind::CharRef | Kind::CData) => format!("C13:{family}:{:?}-inside-a-token-valued-leaf", r.kind),
+                    _ => format!("C13:{family}:{}", what.join("+")),
+                };
                 report.violation(
-                    &format!("C13:{family}:{}", what.join("+")),
+                    &key,
                     &format!("seed '{}' parses to {base:?} but its XML-equivalent rewrite {what:?} parses to {got:?}", seed.name),
                     json!({"seed": seed.name, "seed_message": base_text, "rewritten_message": text, "rewrites": what}),
                 );
@@ -435,5 +463,5 @@ pub fn run(report: &mut Report) {
     report.set("distinct_nontrivial", distinct.len() as u64);
     report.set("rewrites_applied_by_kind", json!(per_kind));
     report.set("exhaustive", true);
-    report.set("rule", "seeds: hellos, every reply type (ok, data, bare, load results, rpc-errors with all leaves), get-config data for both agent readers, accepted and rejected ones; rewrites: namespace prefix instead of default namespace (per declaration), whitespace between elements, whitespace around token-valued text, comments (first/last child, outside the root), another prefix for a namespace bound with xmlns:p (declaration and uses), xmlns:p declarations hoisted to the root element, attribute order, quote style, XML declaration, <x/> vs <x></x>; every applicable (rewrite, position) singly and in pairs; distinct = distinct rewritten documents; oracle: same acceptance and same Debug value as the seed");
+    report.set("rule", "seeds: hellos, every reply type (ok, data, bare, load results, rpc-errors with all leaves), get-config data for both agent readers, accepted and rejected ones; rewrites: namespace prefix instead of default namespace (per declaration), whitespace between elements, whitespace around token-valued text (element and policy / term names included), a comment / a numeric character reference / a CDATA section inside a token-valued leaf, comments (first/last child, outside the root), another prefix for a namespace bound with xmlns:p (declaration and uses), xmlns:p declarations hoisted to the root element, attribute order, quote style, XML declaration, <x/> vs <x></x>; every applicable (rewrite, position) singly and in pairs; distinct = distinct rewritten documents; oracle: same acceptance and same Debug value as the seed");
 }
